@@ -358,6 +358,8 @@ class Resolver:
             return [Target("method", expr.attr, recv_type=recv, recv_src=rsrc)]
         if isinstance(expr, ast.Subscript):
             # e.g. _SHARD_FILE_TYPE_TO_CLASS[...](...), queue.Queue[U]()
+            while isinstance(expr.value, ast.Subscript):
+                expr = expr.value      # Alias[T][U]: parametrised twice
             q = self.repo.qualify(mod, expr.value)
             if q is not None:
                 obj = self.repo.lookup(q)
